@@ -189,6 +189,25 @@ V15K(op, N, ES, a, b2, r, P, k) ==
 
 V15(op, N, ES, a, b2, r, P) == V15K(op, N, ES, a, b2, r, P, Bound(op))
 
+\* KF-5 (known finding): P32E2::powf(x, y) for x > 0 is computed as exp(ln(x) * y) with ln(x) and the product each rounded
+\* to a posit.  A result is CONSISTENT WITH THAT COMPOSITION if, for some posit l within 3 encodings of the correctly
+\* rounded ln(x) (ln's own bound is 2), it is within 3 encodings of exp(round(l * y)) (exp's own bound is 1).  Used only to
+\* tell the known defect -- the error of the composition, which is unbounded in ulps as x -> 1 with |y| large because the
+\* tiny ln(x) carries few fraction bits -- from any other failure of powf.
+PowfComposedOk(N, ES, a, b2, r, P) ==
+  LET x == Val(N, ES, a)
+      lb == LnDy(x, P + 16)
+      p0 == Round(N, ES, lb.c)
+      OkVia(l) ==
+        LET ex == DyMul(Val(N, ES, l), Val(N, ES, b2)) IN
+        IF l = <<>> \/ IsNaR(N, l) \/ DyIsZero(ex) THEN FALSE
+        ELSE LET tv == Val(N, ES, Round(N, ES, ex)) IN
+             IF DyScale(tv) >= 9 THEN TRUE
+             ELSE LET kk == DyNearInt(DyMul(tv, Dy(FALSE, FromInt(774541003), -29)))
+                      u == BSub(BExact(tv), BMulDy(Ln2Ball, DyInt(kk), P + 16), P + 16)
+                  IN Fwd(N, ES, r, 3, FALSE, BShift(ExpBall(u, P), kk)) # "wrong"
+  IN ~IsNaR(N, r) /\ \E j \in -3 .. 3 : OkVia(PStep(N, p0, j))
+
 -----------------------------------------------------------------------------
 (* The mathematical constants (MathConsts / FloatConst): each must be the correct rounding of *)
 (* the constant it names.  Not one of the listed properties -- specified because the API has   *)
